@@ -683,7 +683,6 @@ class Cmdline(Family):
             return
         self.seen: list = []
         self.asked: list = []
-        self.home = core.mkdtemp("nv-c19home-")
         ready = threading.Event()
 
         def spy(request):
@@ -723,6 +722,8 @@ class Cmdline(Family):
         import asyncio.base_events as be
         import os
         import re
+        import shutil
+        import tempfile
         import threading
 
         from typer.testing import CliRunner
@@ -735,10 +736,11 @@ class Cmdline(Family):
         cmd = next((c for c in url_commands() if " ".join(c["path"]) == case["cmd"]), None)
         if cmd is None:
             return {"client": ["absent", case["cmd"]], "asked": [], "seen": [], "caller": parse_obs(u), "argv": []}
+        home = tempfile.mkdtemp(prefix="nv-")      # a private HOME (pin store) per invocation
         if case["opts"] is not None:
             argv = cmd["path"] + list(case["opts"]) + ["--", u]
         else:
-            argv = tls_startup.synth_argv({"path": cmd["path"], "params": [p for p in cmd["params"] if p["name"] != cmd["url_param"]]}, self.port, self.home) + ["--", u]
+            argv = tls_startup.synth_argv({"path": cmd["path"], "params": [p for p in cmd["params"] if p["name"] != cmd["url_param"]]}, self.port, home) + ["--", u]
         self.seen.clear()
         self.asked.clear()
         me = threading.current_thread()
@@ -752,8 +754,7 @@ class Cmdline(Family):
             return await orig(loop_self, protocol_factory, host="127.0.0.1", port=fam.port, ssl=ssl, server_hostname="localhost" if ssl else None, **kw)
 
         saved = {k: os.environ.get(k) for k in ("HOME", "NO_COLOR", "COLUMNS")}
-        os.environ.update(HOME=self.home, NO_COLOR="1", COLUMNS="4000")
-        alog = logging.getLogger("asyncio")
+        os.environ.update(HOME=home, NO_COLOR="1", COLUMNS="4000")
         be.BaseEventLoop.create_connection = redirect
         try:
             res = CliRunner().invoke(M.app, argv)
@@ -764,6 +765,7 @@ class Cmdline(Family):
                     os.environ.pop(k, None)
                 else:
                     os.environ[k] = v
+            shutil.rmtree(home, ignore_errors=True)
             core.configure_harness_logging()
         text = (res.output or "")
         try:
